@@ -246,6 +246,18 @@ func calleeName(cc *ssa.CallCommon) string {
 	case *ssa.MakeClosure:
 		return v.Fn.(*ssa.Function).Name()
 	}
+	// a function value read from a named variable (a function-typed parameter or local): the variable's name
+	if u, ok := cc.Value.(*ssa.UnOp); ok && u.Op == token.MUL {
+		if a, ok := u.X.(*ssa.Alloc); ok && a.Comment != "" {
+			return a.Comment
+		}
+		if fv, ok := u.X.(*ssa.FreeVar); ok {
+			return fv.Name()
+		}
+	}
+	if p, ok := cc.Value.(*ssa.Parameter); ok {
+		return p.Name()
+	}
 	if cc.Value.Name() != "" {
 		return strings.TrimPrefix(cc.Value.Name(), "*")
 	}
